@@ -30,7 +30,7 @@ from .. import common
 from ..translate import filtersrc as tr_filtersrc
 
 PROP = "C19"
-MODULES = ["XpmVerif.Properties.C19", "XpmVerif.Properties.C19Src", "XpmVerif.Properties.C19Links"]
+MODULES = ["XpmVerif.Properties.C19", "XpmVerif.Properties.C19Src", "XpmVerif.Properties.C19Links", "XpmVerif.Properties.C19Partial"]
 REQUIRED = ["XpmVerif.C19." + n for n in (
     "evalImpl_eq_spec", "clean_exact", "clean_never_running", "clean_noop_without_perform", "orphans_exact",
     "history_safe", "history_noop")] + ["XpmVerif.C19Src." + n for n in (
@@ -39,7 +39,9 @@ REQUIRED = ["XpmVerif.C19." + n for n in (
     "evalSrc_eq_spec", "cleanSrc_exact", "cleanSrc_never_running", "cleanSrc_noop_without_perform", "orphansSrc_exact",
     "historySrc_safe")] + ["XpmVerif.C19Links." + n for n in (
     "clean_exact_links", "clean_never_running_links", "clean_noop_without_perform_links", "orphans_exact_links",
-    "orphans_keeps_through_link", "history_safe_links")]
+    "orphans_keeps_through_link", "history_safe_links")] + [
+    "XpmVerif.C19Partial.clean_removes_only_selected", "XpmVerif.C19Partial.filter_true_is_selected", "XpmVerif.C19Partial.partial_conservative",
+    "XpmVerif.C19Src.src_filterRaise", "XpmVerif.C19Src.cleanPSrc_removes_only_selected"]
 
 
 def _own_findings():
@@ -279,7 +281,7 @@ def pids():
     return _PIDS
 
 
-def materialise(ws, layout, links=()):
+def materialise(ws, layout, links=(), strays=()):
     ws.mkdir(parents=True)
     (ws / ".__experimaestro__").touch()
     (ws / "jobs").mkdir()
@@ -289,6 +291,9 @@ def materialise(ws, layout, links=()):
     for ty, name, tty, target in norm_links(links):  # what `deprecated list --fix` leaves: jobs/<ty>/<name> -> jobs/<ty>/<target>
         (ws / "jobs" / ty).mkdir(exist_ok=True)
         (ws / "jobs" / ty / name).symlink_to(ws / "jobs" / tty / target)  # the target may be missing (dangling) or a link (chain)
+    for ty, name in strays:  # a plain file where a job directory is expected
+        (ws / "jobs" / ty).mkdir(exist_ok=True)
+        (ws / "jobs" / ty / name).write_text("not a job directory\n")
     for x in layout["xps"]:
         (ws / "xp" / x["name"]).mkdir()
         for k, entries in (("jobs", x["index"]), ("jobs.bak", x["backup"])):
@@ -354,7 +359,14 @@ def write_job(ws, j):
     d = ws / "jobs" / j["ty"] / j["id"]
     d.mkdir(parents=True)
     s = script_of(j["ty"])
-    (d / "params.json").write_text(json.dumps({"workspace": str(ws), "tags": j["tags"], "objects": []}))
+    text = json.dumps({"workspace": str(ws), "tags": j["tags"], "objects": []})
+    kind = j.get("params", "ok")  # "missing" / "truncated" / "notags": what an interrupted (re-)submission leaves
+    if kind == "truncated":
+        (d / "params.json").write_text(text[:max(1, len(text) // 2)])
+    elif kind == "notags":
+        (d / "params.json").write_text(json.dumps({"workspace": str(ws), "objects": []}))
+    elif kind != "missing":
+        (d / "params.json").write_text(text)
     (d / f"{s}.py").write_text("# script\n")
     if j["done"]:
         (d / f"{s}.done").touch()
@@ -452,6 +464,12 @@ def is_running(j):
     return j["pid"] and j["alive"] and not j["done"]
 
 
+def n5_signature(case, opts, raised):
+    """the run shows finding C19-N5 and nothing else: `--ready`, an entry of the store that is (or becomes) a non-directory,
+    and one of the two exceptions of the READY branch"""
+    return raised in ("UnboundLocalError", "AttributeError") and "--ready" in opts.get("flags", []) and bool(case.get("links") or case.get("strays"))
+
+
 def monitor_clean(ctx, case, ws, layout, opts, before, after, exc, states, fobj, ferr):
     """states: key -> implementation-derived state name before the command"""
     jobs = layout["jobs"]
@@ -500,7 +518,15 @@ def monitor_clean(ctx, case, ws, layout, opts, before, after, exc, states, fobj,
                 _filter_blame(ctx, flt, opts["text"], info, real_info_cached(case, ws, j), impl, jcase)
             else:
                 ctx.monitor_fail("clean:kept-selected-finished", f"jobs clean --perform kept {key} although it is finished, selected and in scope", jcase)
-    if exc is not None:
+    if exc is not None and n5_signature(case, opts, exc_name(exc)):
+        # C19-N5: the `--ready` branch of process() on a store entry that is not a directory (at that moment)
+        should = [f"{j['ty']}/{j['id']}" for j in jobs if f"{j['ty']}/{j['id']}" in remaining and opts["perform"] and (j["done"] or j["failed"]) and not j["pid"]
+                  and (flt is None or spec_eval(flt, {"state": states[f"{j['ty']}/{j['id']}"], "name": j["ty"], "tags": j["tags"]}))
+                  and (opts["experiment"] is None or (j["ty"], j["id"]) in index.get(opts["experiment"], set()))]
+        ctx.monitor_fail("clean:ready-on-non-directory:raised",
+                         f"jobs clean --ready raised {exc!r} on a store entry that is not a directory (dangling link / plain file / link whose target "
+                         f"was just cleaned) and stopped mid-way; finished selected jobs left uncleaned: {should[:4]}", case)
+    elif exc is not None:
         if flt is not None and fobj is None:  # createFilter itself raises: blame the atom
             info = {"state": None, "name": "a.t", "tags": {}}
             if jobs:
@@ -633,6 +659,12 @@ def probe_quirks(ctx):
     invoke(["jobs", "--workdir", str(root), "clean", "--experiment", "e1", "--perform"])
     q["xpByScript"] = "c.t/o" not in job_keys(root)
     shutil.rmtree(root)
+    # what process() does with a job on which the filter raises (fallback of the translator piece `filterRaise`)
+    lay2 = {"jobs": [{"ty": "a.t", "id": "bad", "done": False, "failed": True, "pid": False, "alive": False, "tags": {}, "params": "missing"}], "xps": []}
+    materialise(root, lay2)
+    exc = invoke(["jobs", "--workdir", str(root), "clean", "--filter", 'model = "bm25"', "--perform"])
+    q["filterRaise"] = "abort" if exc is not None else ("selects" if "a.t/bad" not in job_keys(root) else "skips")
+    shutil.rmtree(root)
     return q
 
 
@@ -727,9 +759,9 @@ def infos_of(layout):
 
 
 def run_clean_case(ctx, c, q, lines, impls, root):
-    layout, opts, links = c["layout"], c["opts"], c.get("links", [])
+    layout, opts, links, strays = c["layout"], c["opts"], c.get("links", []), c.get("strays", [])
     ws = root / f"c{ctx.evaluations}"
-    materialise(ws, layout, links)
+    materialise(ws, layout, links, strays)
     raised, remaining, states = do_clean(ctx, c, ws, layout, opts)
     left_links = link_keys(ws)
     shutil.rmtree(ws)
@@ -737,24 +769,32 @@ def run_clean_case(ctx, c, q, lines, impls, root):
         lines.append({"op": "cleanL", "q": q, "layout": dict(layout_line(layout), links=[list(l) for l in norm_links(links)]), "opts": opts_line(opts),
                       "rx": rx_table(opts["filter"], infos_of(layout))})
         impls.append({"raised": raised is not None, "remaining": remaining, "links": left_links})
+        if n5_signature(c, opts, raised):  # outside the model (`--ready`): the monitor reports it, no comparison
+            lines[-1]["skip"] = "C19-N5"
+            ctx.count("store_links", "clean:ready-raised")
         ctx.count("store_links", "clean:" + ("dangling" if any(py_resolve(layout, links, (l[0], l[1])) is None for l in links) else "live"))
-    else:
+    else:  # a plain file in the store is no entry of the model (neither command looks at it)
         lines.append({"op": "clean", "q": q, "layout": layout_line(layout), "opts": opts_line(opts), "rx": rx_table(opts["filter"], infos_of(layout))})
         impls.append({"raised": raised is not None, "remaining": remaining})
+        if n5_signature(c, opts, raised):
+            lines[-1]["skip"] = "C19-N5"
+            ctx.count("store_links", "clean:ready-raised")
+    if strays:
+        ctx.count("store_links", "clean:stray-file")
     lines.append({"op": "state", "q": q, "jobs": layout_line(layout)["jobs"]})
     impls.append({"impl": [states[f"{j['ty']}/{j['id']}"] for j in layout["jobs"]]})
     n_removed = len(layout["jobs"]) - len(remaining)
     ctx.count("clean_outcome", "raised" if raised else ("removed-some" if 0 < n_removed < len(layout["jobs"]) else "removed-all" if n_removed else "removed-none"))
     ctx.count("clean_opts", ("xp" if opts["experiment"] else "-") + ("+filter" if opts["filter"] else "") + ("+perform" if opts["perform"] else ""))
     ctx.case({"kind": "clean", "jobs": [[j["ty"], j["id"], j["done"], j["failed"], j["pid"], j["alive"], j["tags"]] for j in layout["jobs"]], "xps": layout["xps"],
-              "links": [list(l) for l in links], "experiment": opts["experiment"], "filter": opts["text"], "perform": opts["perform"]},
+              "links": [list(l) for l in links], "strays": strays, "flags": opts.get("flags", []), "experiment": opts["experiment"], "filter": opts["text"], "perform": opts["perform"]},
              0 < n_removed < len(layout["jobs"]))
 
 
 def run_orphans_case(ctx, c, q, lines, impls, root):
     layout, opts, links = c["layout"], c["opts"], [tuple(l) for l in c.get("links", [])]
     ws = root / f"o{ctx.evaluations}"
-    materialise(ws, layout, links)
+    materialise(ws, layout, links, c.get("strays", []))
     raised, remaining = do_orphans(ctx, c, ws, layout, opts, links)
     left_links = link_keys(ws)
     shutil.rmtree(ws)
@@ -813,7 +853,150 @@ def run_state_case(ctx, c, q, lines, impls, root):
     ctx.case(c, False)
 
 
-RUNNERS = {"state": run_state_case, "filter": run_filter_case, "clean": run_clean_case, "orphans": run_orphans_case, "history": run_history_case}
+# ---------------------------------------------------------------- filters that cannot be evaluated on a job
+
+NUMBERS = [12, 3, 0.5, 2.5, -1]  # non-zero, pairwise different texts: `==` on them is equality of the texts
+
+
+def hz_of(j):
+    return {"noTags": j.get("params", "ok") != "ok", "nonStr": sorted(k for k, v in j["tags"].items() if not isinstance(v, str))}
+
+
+def kleene_atom(a, info, hz):
+    """'T' / 'F' / 'E' (evaluating the comparison raises): plain-Python meaning of one comparison on a job whose tag table may be
+    unreadable and whose tag values may be numbers"""
+    def get(var):
+        if var == "@state":
+            return info["state"]
+        if var == "@name":
+            return info["name"]
+        if hz["noTags"]:
+            raise LookupError(var)
+        return info["tags"].get(var)
+    try:
+        v = get(a["v"])
+        k = a["k"]
+        if k == "eqc":
+            r = v == a["c"]
+        elif k == "eqv":
+            r = v == get(a["w"])
+        elif k == "in":
+            r = v is not None and v in a["cs"]
+        elif k == "notin":
+            r = not (v is not None and v in a["cs"])
+        else:
+            if v is None or v == "":
+                r = False
+            elif not isinstance(v, str):
+                return "E"
+            else:
+                r = re.compile(a["p"]).match(v) is not None
+        return "T" if r else "F"
+    except LookupError:
+        return "E"
+
+
+def kleene_eval(expr, info, hz):
+    """three-valued documented meaning (Kleene): the verdict every evaluation order agrees on"""
+    def k_and(x, y):
+        return "F" if "F" in (x, y) else ("T" if (x, y) == ("T", "T") else "E")
+
+    def k_or(x, y):
+        return "T" if "T" in (x, y) else ("F" if (x, y) == ("F", "F") else "E")
+
+    acc = kleene_atom(expr["first"], info, hz)
+    for op, a in expr["rest"]:
+        b = kleene_atom(a, info, hz)
+        acc = k_and(acc, b) if op == "and" else k_or(acc, b)
+    return acc
+
+
+def gen_hazard_case(rng):
+    layout = gen_layout(rng, 6)
+    for j in layout["jobs"]:
+        if rng.random() < 0.3:
+            j["params"] = rng.choice(["missing", "truncated", "notags"])
+            if rng.random() < 0.7:  # a failed job whose re-submission was interrupted
+                j["failed"], j["done"] = True, False
+        elif rng.random() < 0.4:
+            j["tags"][rng.choice(TAGS[:4])] = rng.choice(NUMBERS)
+    opts = gen_clean_opts(rng, layout)
+    if opts["filter"] is None or rng.random() < 0.5:
+        r = rng.random()
+        if r < 0.5:
+            flt = {"first": {"k": "re", "v": rng.choice(TAGS[:4]), "p": rng.choice(PATTERNS)}, "rest": []}
+            if rng.random() < 0.4:
+                flt["rest"].append([rng.choice(["and", "or"]), gen_atom(rng)])
+        else:
+            flt = gen_expr(rng, 3)
+        opts["filter"], opts["text"] = flt, render(flt, rng)
+    opts["perform"] = rng.random() < 0.9
+    opts["flags"] = []
+    return {"kind": "hazard", "layout": layout, "opts": opts}
+
+
+def run_hazard_case(ctx, c, q, lines, impls, root):
+    """`jobs clean` on a workspace where the filter cannot be evaluated on some job.  Oracle (monitor): whatever the command does
+    (abort included) a removed job was finished, in scope, `--perform` was given and the filter's three-valued meaning on it is true."""
+    layout, opts = c["layout"], c["opts"]
+    ws = root / f"z{ctx.evaluations}"
+    materialise(ws, layout)
+    byk = {f"{j['ty']}/{j['id']}": j for j in layout["jobs"]}
+    states = {k: real_state(ws, j) for k, j in byk.items()}
+    for k, j in byk.items():
+        monitor_state(ctx, j, states[k], "hazard-case")
+    order = [f"{p.parent.name}/{p.name}" for p in (ws / "jobs").glob("*/*")]  # the order `process()` will see (unchanged directory)
+    before = snapshot(ws)
+    exc = invoke(clean_args(ws, opts))
+    after = snapshot(ws)
+    remaining = set(job_keys(ws))
+    shutil.rmtree(ws)
+    flt = opts["filter"]
+    index = {x["name"]: {tuple(k) for k in x["index"]} for x in layout["xps"]}
+    kl, hazardous = {}, False
+    for k, j in byk.items():
+        info = {"state": states[k], "name": j["ty"], "tags": j["tags"]}
+        kl[k] = "T" if flt is None else kleene_eval(flt, info, hz_of(j))
+        hazardous |= flt is not None and any(kleene_atom(a, info, hz_of(j)) == "E" for a in atoms_of(flt))
+    gone = set()
+    for k, j in byk.items():
+        if k in remaining:
+            continue
+        gone.add(k)
+        jcase = dict(c, job=k)
+        if not opts["perform"]:
+            ctx.monitor_fail("clean:removed-without-perform", f"jobs clean without --perform removed {k}", jcase)
+        if is_running(j):
+            ctx.monitor_fail("clean:removed-running:" + "+".join(n for n in ("failed", "pid") if j[n]), f"jobs clean removed {k} whose process is alive", jcase)
+        if not (j["done"] or j["failed"]):
+            ctx.monitor_fail("clean:removed-unfinished", f"jobs clean removed {k} which has neither a .done nor a .failed marker", jcase)
+        if opts["experiment"] is not None and (j["ty"], j["id"]) not in index.get(opts["experiment"], set()):
+            ctx.monitor_fail("clean:removed-outside-experiment:other", f"jobs clean --experiment {opts['experiment']} removed {k} which is not in that experiment's index", jcase)
+        if kl[k] != "T":
+            why = {"E": f"the filter cannot be evaluated on it (params.json {j.get('params', 'ok')}, non-string tags {hz_of(j)['nonStr']})", "F": "the filter does not select it"}[kl[k]]
+            ctx.monitor_fail("clean:removed-filter-not-true:" + ("unevaluable" if kl[k] == "E" else "false"),
+                             f"jobs clean --filter {opts['text']!r} --perform removed {k} although {why}: a job on which the filter cannot be evaluated is not selected", jcase)
+    if exc is not None and not hazardous:
+        ctx.monitor_fail(f"clean:raised:{exc_name(exc)}", f"jobs clean raised {exc!r} although the filter can be evaluated on every job", c)
+    extra = {p for p in before - after if not any(p == f"jobs/{k}" or p.startswith(f"jobs/{k}/") for k in gone)}
+    if extra or (after - before):
+        ctx.monitor_fail("clean:collateral", f"jobs clean changed paths outside removed job directories: gone {sorted(extra)[:5]} new {sorted(after - before)[:5]}", c)
+    jobs_line = []
+    for k in order:
+        j = byk[k]
+        h = hz_of(j)
+        jobs_line.append({"ty": j["ty"], "id": j["id"], "done": j["done"], "failed": j["failed"], "pid": j["pid"], "alive": j["alive"],
+                          "tags": sorted((t, v if isinstance(v, str) else str(v)) for t, v in j["tags"].items()), "noTags": h["noTags"], "nonStr": h["nonStr"]})
+    infos = [{"state": states[k], "name": byk[k]["ty"], "tags": {t: v for t, v in byk[k]["tags"].items() if isinstance(v, str)}} for k in order]
+    lines.append({"op": "cleanP", "q": q, "layout": {"jobs": jobs_line, "xps": layout["xps"]}, "opts": opts_line(opts), "rx": rx_table(flt, infos)})
+    impls.append({"raised": exc is not None, "remaining": sorted(remaining), "kleene": [kl[k] for k in order]})
+    ctx.count("hazard_outcome", ("raised" if exc is not None else "completed") + (":removed-some" if gone else ":removed-none"))
+    ctx.count("hazard_kleene", "".join(sorted(set(kl.values()))))
+    ctx.case({"kind": "hazard", "jobs": [[j["ty"], j["id"], j["done"], j["failed"], j["pid"], j["alive"], j["tags"], j.get("params", "ok")] for j in layout["jobs"]],
+              "xps": layout["xps"], "experiment": opts["experiment"], "filter": opts["text"], "perform": opts["perform"]}, hazardous and bool(gone))
+
+
+RUNNERS = {"hazard": run_hazard_case, "state": run_state_case, "filter": run_filter_case, "clean": run_clean_case, "orphans": run_orphans_case, "history": run_history_case}
 
 
 def gen_case(rng, kind):
@@ -822,18 +1005,24 @@ def gen_case(rng, kind):
         used = set()
         jobs = [j for j in (gen_job(rng, used) for _ in range(rng.choice([2, 3, 4]))) if j]
         return {"kind": "filter", "expr": expr, "text": render(expr, rng), "jobs": jobs}
+    if kind == "hazard":
+        return gen_hazard_case(rng)
     layout = gen_layout(rng)
     if kind == "clean":
         c = {"kind": "clean", "layout": layout, "opts": gen_clean_opts(rng, layout)}
         if rng.random() < 0.12 and layout["jobs"]:
             c["links"] = gen_links(rng, layout)
-            # `--ready` on a store entry that is not a directory raises (finding C19-N5, reported separately)
-            c["opts"]["flags"] = [f for f in c["opts"]["flags"] if f != "--ready"]
+        if rng.random() < 0.05 and layout["jobs"]:  # a plain file where a job directory is expected
+            c["strays"] = [[rng.choice(layout["jobs"])["ty"], "stray"]]
+        if c.get("links") or c.get("strays"):  # the listing flags matter on entries that are not directories
+            c["opts"]["flags"] = [f for f in ("--tags", "--fullpath", "--ready") if rng.random() < 0.4]
         return c
     if kind == "orphans":
         c = {"kind": "orphans", "layout": layout, "opts": gen_orph_opts(rng)}
         if rng.random() < 0.15 and layout["jobs"]:  # what `deprecated list --fix` leaves behind, chains, dangling links
             c["links"] = gen_links(rng, layout)
+        if rng.random() < 0.04 and layout["jobs"]:
+            c["strays"] = [[rng.choice(layout["jobs"])["ty"], "stray"]]
         return c
     cmds = []
     for _ in range(rng.choice([2, 2, 3])):
@@ -863,7 +1052,7 @@ def gen_cases(ctx, n, rng, corpus=True):
     cases = list(CORPUS) if corpus else []
     for _ in range(n):
         r = rng.random()
-        kind = "filter" if r < 0.45 else "clean" if r < 0.78 else "orphans" if r < 0.92 else "history"
+        kind = "filter" if r < 0.45 else "clean" if r < 0.74 else "hazard" if r < 0.80 else "orphans" if r < 0.92 else "history"
         cases.append(gen_case(rng, kind))
     return cases
 
@@ -905,6 +1094,8 @@ def run_cases(ctx, cases, q, with_model=True):
             mi, ii = {"raised": m.get("raised"), "remaining": m.get("remaining")}, _canon(i)
         elif op == "orphans":
             mi, ii = {"remaining": m.get("remaining"), "raised": None}, _canon(i)
+        elif op == "cleanP":
+            mi, ii = {"raised": m.get("raised"), "remaining": m.get("remaining"), "kleene": m.get("kleene")}, _canon(i)
         elif op == "cleanL":
             mi, ii = {"raised": m.get("raised"), "remaining": m.get("remaining"), "links": sorted(m.get("links", []))}, _canon(i)
         elif op == "orphansL":
@@ -912,6 +1103,8 @@ def run_cases(ctx, cases, q, with_model=True):
             ii = _canon(i)
         else:
             mi, ii = {"remaining": m.get("remaining")}, _canon(i)
+        if line.get("skip"):
+            continue
         ctx.traces_validated += 1
         if mi != ii:
             ctx.disagree(line, mi, ii, f"model and implementation differ ({op})")
@@ -930,7 +1123,7 @@ def correspond(ctx):
         "pyparsing tokenisation, click option parsing, pathlib/glob/rmtree semantics (exercised, not proved)",
     ]
     q = _quirks(ctx)
-    ctx.extra_cov["source_variant_observed"] = {k: ("pinned-defect" if v else "repaired") for k, v in q.items()}
+    ctx.extra_cov["source_variant_observed"] = {k: (v if isinstance(v, str) else "pinned-defect" if v else "repaired") for k, v in q.items()}
     ctx.notes.append(f"model switches observed on the source: {q}")
     ctx._q = q
     n = ctx.scale(3000, 36000)
